@@ -9,3 +9,5 @@ open MdVerif.CodeX
 #print axioms C03X_span_top
 #print axioms C03X_span_extensions_inert
 #print axioms C03X_span_attr_list_boundary
+#print axioms C03X_block_after_paragraph
+#print axioms C03X_block_after_paragraph_inert
